@@ -478,9 +478,9 @@ def check_chain(ctx, text, kw, fail, k, positions, dispatching=False):
                 else:
                     i0, j0 = segment(tr0, x)
                     inner = {id(e[-1]) for e in tr0[i0 + 1:j0 - 1]}
-                    if (at_x != [(t, "enter") for t in range(j + 1)] or any(id(e[-1]) in inner for e in trace)
-                            or doc.to_dict() != before):
-                        fail("chain:skip-not-local", "SkipNode from a chain member does not suppress exactly the later members, the children and every leave of that node",
+                    want = [(t, "enter") for t in range(k)] + [(t, "leave") for t in range(k - 1, -1, -1) if t != j]
+                    if at_x != want or any(id(e[-1]) in inner for e in trace) or doc.to_dict() != before:
+                        fail("chain:skip-not-local:at-the-node", "SkipNode from a chain member does not suppress exactly the children and the raiser's leave of that node",
                              {"chain": k, "member": j, "edit": act, "pos": pos})
 
 
@@ -647,9 +647,11 @@ def check_class_history(ctx, text, kw, fail, history, rng, pos=None, act=None):
 
 
 def check_chain_skips(ctx, text, kw, fail, k, positions):
-    """chains of k recorders; member j (every j) raises SkipNode at the node: the members after j are not entered
-    there, nobody leaves it, its children are not visited, the tree is unchanged AND every visitor's enter/leave on
-    ALL OTHER nodes is what it is without the skip."""
+    """chains of k recorders; member j (every j) raises SkipNode at the node. READING of the statement ("the skip
+    signal suppresses only that node's children and ITS leave call" + "chained visitors enter in order and leave in
+    reverse" + "enter and then leave exactly once" for every visitor that does not skip): every member enters the node
+    in order, every member EXCEPT THE RAISER leaves it in reverse order, its children are visited by nobody, the tree
+    is unchanged, and every visitor's enter/leave on all other nodes is what it is without the skip."""
     _v = V()
     doc1 = parse_doc(text, kw)
     single = []
@@ -677,8 +679,10 @@ def check_chain_skips(ctx, text, kw, fail, k, positions):
             ctx.count()
             exp = []
             for q, e in enumerate(single):
-                if q == i0:
-                    exp += [(t,) + key(e) for t in range(j + 1)]
+                if q == i0:       # every member enters the node, in order …
+                    exp += [(t,) + key(e) for t in range(k)]
+                elif q == j0 - 1 and j0 - 1 > i0:   # … and every member but the raiser leaves it, in reverse
+                    exp += [(t,) + key(e) for t in range(k - 1, -1, -1) if t != j]
                 elif i0 < q < j0:
                     continue
                 else:
@@ -693,8 +697,9 @@ def check_chain_skips(ctx, text, kw, fail, k, positions):
             at_x = [g for g in got if g[2:] == xk and g[1] in ("enter", "leave")]
             if res is not doc or doc.to_dict() != before:
                 cause = "tree-changed"
-            elif [g for g in got if g[1:] == key(single[i0])] != [(t,) + key(single[i0]) for t in range(j + 1)] or \
-                    any(g[1:] == key(single[j0 - 1]) for g in got):
+            elif ([g for g in trace if g[2] is x and g[1] == "enter"] and
+                  [(g[0], g[1]) for g in trace if g[2] is x] !=
+                  [(t, "enter") for t in range(k)] + [(t, "leave") for t in range(k - 1, -1, -1) if t != j]):
                 cause = "at-the-node"
             elif len(got) < len(exp) or len(got) > len(exp):
                 cause = "other-nodes-unbalanced"
@@ -758,10 +763,15 @@ def check_chain_nested(ctx, text, kw, fail, position, variant, pos):
     n_leave = ["i2", "i1"] + (["N"] if variant != "plain" else [])
     exp = []
     for q, e in enumerate(single):
-        if variant == "skipping" and i0 < q < j0:
+        if variant == "skipping" and i0 < q < j0 - 1:
             continue
         if variant == "skipping" and q == i0:
-            exp += [(t,) + key(e) for t in outer_tags[:position]] + [("N",) + key(e)]
+            # the nested chain raises in its own enter (its members are not run); the other outer members enter …
+            exp += [(t,) + key(e) for t in outer_tags]
+            continue
+        if variant == "skipping" and q == j0 - 1:
+            # … and leave, in reverse
+            exp += [(t,) + key(e) for t in outer_tags[::-1] if t != "N"]
             continue
         tags = []
         for t in (outer_tags if e[-2] == "enter" else outer_tags[::-1]):
